@@ -91,6 +91,16 @@ IsoPreserved(d, out, o) ==
   /\ Unflag(Suffix(out, tail)) = Unflag(Suffix(d, tail))
   /\ Balanced(out) /\ MatchArr(out)[o] = Len(out) - tail
 
+(* Slice.max_open(fragment, openIsolating): open depths along the first / last children, stopping
+   at leaves and - unless openIsolating - at isolating nodes (they stay closed) *)
+RECURSIVE OpenDepthStart(_, _, _)
+OpenDepthStart(f, i, openIso) ==
+  IF i <= Len(f) /\ f[i].k = "o" /\ (openIso \/ ~Flag(f[i].t, "isolating")) THEN 1 + OpenDepthStart(f, i + 1, openIso) ELSE 0
+RECURSIVE OpenDepthEnd(_, _, _, _)
+OpenDepthEnd(f, M, i, openIso) ==
+  IF i >= 1 /\ f[i].k = "c" /\ (openIso \/ ~Flag(f[M[i]].t, "isolating")) THEN 1 + OpenDepthEnd(f, M, i - 1, openIso) ELSE 0
+MaxOpen(f, openIso) == [toks |-> f, os |-> OpenDepthStart(f, 1, openIso), oe |-> OpenDepthEnd(f, MatchArr(f), Len(f), openIso)]
+
 (* ---------------- structure edits: closed forms (C12) ---------------- *)
 (* split(pos, n[, types]): close n levels and re-open them (types after may override) *)
 SplitRef(d, p, n, after) ==
